@@ -160,7 +160,10 @@ class CallMixin:
                 return
             if recv == FAC and fx.selfterm != FAC:
                 for r, t, s2 in self.inline(func, recv, args, kw, st, fx, node):
-                    if r == "ok":
+                    if r == "ok" and isinstance(t, tuple) and t[:1] in (("tuple",), ("list",), ("reg",), ("regtop",), ("const",), ("new",), ("cls",),
+                                                                       ("func",), ("bm",), ("accum",)):
+                        yield r, t, s2        # a view of the factory's own structure (containers, tables), not a value it computes
+                    elif r == "ok":
                         w = ("facret", func.qual, s2.uid())
                         self.emit(s2, fx, "FACRET", node, func=func.qual, val=w, inner=t)
                         yield r, w, s2
@@ -241,6 +244,19 @@ class CallMixin:
             return
         if k == "partial":
             yield from self.call(f[1], list(f[2]) + list(args), kw, st, fx, node)
+            return
+        if k == "ntcls":
+            fields = f[2]
+            row = list(args)
+            for fname in fields[len(row):]:
+                if fname not in kw:
+                    yield "raise", self.exc(st, "TypeError", "missing field " + fname), st
+                    return
+                row.append(kw[fname])
+            if len(row) != len(fields):
+                yield "raise", self.exc(st, "TypeError", "namedtuple arguments"), st
+                return
+            yield "ok", ("tuple", tuple(row), fields), st
             return
         if k == "lambda":
             yield from self.call_lambda(f, args, st, fx, node)
